@@ -899,8 +899,8 @@ def exComp : Comp ℚ :=
 def exCell : Cell ℚ := { c := exComp, th := 0.31, fcAdj := 0.31, flux := 0, aer := 0 }
 
 def exFn : Fn ℚ :=
-  { exp := id, log := id, log10 := id, pow := fun x _ => x, round0 := id, round2 := id,
-    round3 := id, round4 := id, pyRound2 := id }
+  { exp := id, log := id, log10 := id, pow := fun x y => if y = 2 then x * x else x, round0 := id,
+    round2 := id, round3 := id, round4 := id, pyRound2 := id }
 
 theorem exCell_inv : exCell.Inv := by
   refine ⟨⟨?_, ?_, ?_, ?_, ?_, ?_, ?_, ?_⟩, ?_, ?_, ?_, ?_⟩ <;> norm_num [exCell, exComp]
